@@ -23,7 +23,8 @@ def soll_nodes(spec):
 def outcome_summary(out):
     if out[0] == "ok":
         return "ok", TB.summarise(out[1])
-    return "exc", type(out[1]).__name__
+    # a refusal is a NotImplementedError (the documented type) - subclasses of it are as good and compared as that
+    return "exc", "NotImplementedError" if isinstance(out[1], NotImplementedError) else type(out[1]).__name__
 
 
 async def check_tree(ctx, case):
